@@ -23,15 +23,15 @@ func init() {
 	register(&Suite{Name: "infodl", Gen: genInfoDL, Exec: execInfoDL})
 }
 
-type recPeer struct {
+type idlRecPeer struct {
 	size uint32
 	sent []uint32
 }
 
-func (p *recPeer) MetadataSize() uint32              { return p.size }
-func (p *recPeer) RequestMetadataPiece(index uint32) { p.sent = append(p.sent, index) }
+func (p *idlRecPeer) MetadataSize() uint32              { return p.size }
+func (p *idlRecPeer) RequestMetadataPiece(index uint32) { p.sent = append(p.sent, index) }
 
-func rle(b []byte) string {
+func idlRLE(b []byte) string {
 	if len(b) == 0 {
 		return "-"
 	}
@@ -77,15 +77,15 @@ func infodlData(m map[string]string) []byte {
 
 func execInfoDL(ops []string) []string {
 	var obs []string
-	var p *recPeer
+	var p *idlRecPeer
 	var d *infodownloader.InfoDownloader
 	for _, op := range ops {
 		m := kv(op)
 		switch m["_"] {
 		case "new":
-			p = &recPeer{size: uint32(atou(m["size"]))}
+			p = &idlRecPeer{size: uint32(atou(m["size"]))}
 			d = infodownloader.New(p)
-			obs = append(obs, fmt.Sprintf("len=%d done=%s rle=%s", len(d.Bytes), b01(d.Done()), rle(d.Bytes)))
+			obs = append(obs, fmt.Sprintf("len=%d done=%s rle=%s", len(d.Bytes), b01(d.Done()), idlRLE(d.Bytes)))
 		case "req":
 			if d == nil {
 				obs = append(obs, "nostate")
@@ -117,7 +117,7 @@ func execInfoDL(ops []string) []string {
 					r = "err:other"
 				}
 			}
-			obs = append(obs, fmt.Sprintf("%s done=%s rle=%s", r, b01(d.Done()), rle(d.Bytes)))
+			obs = append(obs, fmt.Sprintf("%s done=%s rle=%s", r, b01(d.Done()), idlRLE(d.Bytes)))
 		default:
 			obs = append(obs, "unknown-op")
 		}
